@@ -211,6 +211,10 @@ pub struct Tcb {
     /// Next sequence number we'll send (advances as egress chops and
     /// emits segments).
     pub snd_nxt: u32,
+    /// Highest sequence number ever sent. Equal to `snd_nxt` except
+    /// after a go-back-N rewind, when `snd_nxt` restarts from `snd_una`
+    /// while the peer may still acknowledge anything up to here.
+    pub snd_max: u32,
     /// Oldest unACK'd sequence number. `snd_nxt - snd_una` == in-flight.
     pub snd_una: u32,
     /// Peer's last-advertised receive window, in bytes. Bounds how far
